@@ -1,5 +1,6 @@
 import PyrefactModel.DriverLemmas
 import PyrefactModel.SchedLemmas
+import PyrefactModel.Orient
 /-! # C09 — repeated formatting converges and never oscillates (orchestration theorems) -/
 namespace C09
 variable {T K : Type} [DecidableEq K]
@@ -42,5 +43,22 @@ text it started from (see also `C10.fix_history_initial_only`) -/
 theorem fix_history_asymmetry {T : Type} [DecidableEq T] (pass : T → T) (n : Nat) (init cur : T)
     (h : pass cur ≠ init) : fixLoop pass (n + 1) init cur = fixLoop pass n init (pass cur) := by
   simp [fixLoop, h]
+
+/-- **`swap_if_else` cannot exchange the branches of one `if` back and forth**: the orientation heuristic
+(`_orelse_preferred_as_body`) never prefers both orders, for all branch summaries that are not both `pass`-only and hold no dead code
+behind a leading jump -/
+theorem orientation_antisymmetric (b o : Orient.Branch) (hb : Orient.Sane b) (ho : Orient.Sane o)
+    (hpass : ¬ (b.allPass = true ∧ o.allPass = true)) (h : Orient.preferOrelse b o = true) :
+    Orient.preferOrelse o b = false := Orient.prefer_antisymmetric b o hb ho hpass h
+
+/-- neither hypothesis can be dropped (witnesses evaluated on the model): two `pass`-only branches, and two branches with dead
+code behind a leading jump, are preferred in both orders -/
+theorem orientation_hypotheses_needed :
+    (Orient.preferOrelse ⟨true, false, 1, false, 1⟩ ⟨true, false, 1, false, 1⟩ = true) ∧
+    (Orient.preferOrelse ⟨false, true, 1, true, 4⟩ ⟨false, true, 1, true, 4⟩ = true) := Orient.prefer_both_counterexamples
+
+/-- non-vacuity: a long body against `else: return` is swapped, and not swapped back -/
+example : Orient.preferOrelse ⟨false, false, 1, false, 4⟩ ⟨false, true, 1, true, 1⟩ = true ∧
+    Orient.preferOrelse ⟨false, true, 1, true, 1⟩ ⟨false, false, 1, false, 4⟩ = false := by decide
 
 end C09
